@@ -32,7 +32,7 @@ TReset == /\ IsEvent("Reset")
           /\ pool' = [p \in Peers |-> IF p \in GenPeers THEN [st |-> ConsSt, init |-> GenesisPos[p], total |-> 0] ELSE NoPeer]
           /\ prev' = pool'
           /\ au' = [p \in Peers |-> [a \in Addrs |-> ZeroBk]]
-          /\ stake' = [a \in Addrs |-> IF a = "og" THEN SumSet(GenPeers, LAMBDA p : GenesisPos[p]) ELSE 0]
+          /\ stake' = [a \in Addrs |-> SumSet({q \in GenPeers : OwnerOf[q] = a}, LAMBDA p : GenesisPos[p])]
           /\ pen' = [p \in Peers |-> 0]
           /\ ont' = [a \in Addrs \cup {"gov"} |-> IF a = "gov" THEN SumSet(GenPeers, LAMBDA p : GenesisPos[p]) ELSE Fund[a]]
           /\ ong' = [a \in Addrs \cup {"gov", "dapp"} |-> 0]
